@@ -239,7 +239,7 @@ def run_cases_v(name, body, timeout=600):
     os.makedirs(d, exist_ok=True)
     p = os.path.join(d, name + ".v")
     open(p, "w").write(body)
-    rc, out = sh("timeout %d coqc -q -noglob -Q %s TsrunV %s" % (timeout, os.path.join(COQ, "theories"), p),
+    rc, out = sh("ulimit -s unlimited 2>/dev/null; timeout %d coqc -q -noglob -Q %s TsrunV %s" % (timeout, os.path.join(COQ, "theories"), p),
                  cwd=d, timeout=timeout + 30)
     for ext in (".vo", ".vok", ".vos", ".glob"):
         q = os.path.join(d, name + ext)
